@@ -301,7 +301,8 @@ fn fixed_families(g: &mut Gen) {
     // was given (molodensky: `ellps_0` and `ellps_1` together replace `ellps`, `da`, `df`) sees what the caller gave
     for (inv, seq) in [
         ("m:molo ellps_0=WGS84 ellps_1=intl", vec!["molodensky dx=84.87 dy=96.49 dz=116.95 ellps_0=WGS84 ellps_1=intl"]),
-        ("m:molo ellps_0=WGS84 ellps_1=intl ellps=bessel", vec!["molodensky dx=84.87 dy=96.49 dz=116.95 ellps_0=WGS84 ellps_1=intl ellps=bessel"]),
+        ("m:molo ellps_0=clrk66 ellps_1=airy", vec!["molodensky dx=84.87 dy=96.49 dz=116.95 ellps_0=clrk66 ellps_1=airy"]),
+        ("m:molo ellps_1=bessel ellps_0=krass abridged", vec!["molodensky dx=84.87 dy=96.49 dz=116.95 ellps_0=krass ellps_1=bessel abridged"]),
         ("m:molo ellps_0=WGS84", vec!["molodensky dx=84.87 dy=96.49 dz=116.95 ellps_0=WGS84"]),
         ("m:molo ellps=intl da=-251 df=-1.41927e-05", vec!["molodensky dx=84.87 dy=96.49 dz=116.95 ellps=intl da=-251 df=-1.41927e-05"]),
         ("m:molo2 ellps_0=WGS84 ellps_1=intl", vec!["addone", "addone inv", "molodensky dx=84.87 dy=96.49 dz=116.95 ellps_0=WGS84 ellps_1=intl abridged"]),
